@@ -393,6 +393,37 @@ fn domains_case(c: &mut Case<'_>) -> CaseResult {
         Ok(vh) if vh.bucket().is_none() && vh.domain() == doms[i] => {}
         other => return Err(c.fail("host-resolved-wrongly", format!("{} under {doms:?}: {other:?}", doms[i]))),
     }
+    // a foreign host - in particular one whose text merely ends with a base domain, not at a label boundary - names a
+    // bucket by its whole (CNAME-style), under no base domain
+    let foreign = match c.t.below(3) {
+        0 => format!("{}{}", gen_label(c), doms[i]),
+        1 => format!("{}-{}", gen_label(c), doms[i]),
+        _ => gen_domain(c),
+    };
+    let host_part = foreign.split(':').next().unwrap_or("");
+    let belongs = doms.iter().any(|d| label_suffix(&foreign, d));
+    if !belongs && !host_part.starts_with('-') && !is_ip_like(host_part) {
+        c.label("foreign-host");
+        let check = |who: &str, res: Result<(Option<String>, String), String>| -> Result<(), (String, String)> {
+            match res {
+                // (whether a port stays part of the name is don't-care)
+                Ok((Some(b), d)) if (b == foreign || b == host_part) && !doms.contains(&d) => Ok(()),
+                other => Err(("foreign-host-resolved-wrongly".to_owned(), format!("{who}: foreign host {foreign} under {doms:?}: {other:?}"))),
+            }
+        };
+        let r = md.parse_host_header(&foreign).map(|vh| (vh.bucket().map(str::to_owned), vh.domain().to_owned())).map_err(|e| format!("{e:?}"));
+        if let Err((sig, msg)) = check("MultiDomain", r) {
+            return Err(c.fail(sig, msg));
+        }
+        if doms.len() == 1 {
+            if let Ok(sd) = SingleDomain::new(&doms[0]) {
+                let r = sd.parse_host_header(&foreign).map(|vh| (vh.bucket().map(str::to_owned), vh.domain().to_owned())).map_err(|e| format!("{e:?}"));
+                if let Err((sig, msg)) = check("SingleDomain", r) {
+                    return Err(c.fail(sig, msg));
+                }
+            }
+        }
+    }
     if doms.len() == 1 {
         match SingleDomain::new(&doms[0]) {
             Ok(sd) => match sd.parse_host_header(&host) {
